@@ -93,6 +93,9 @@ func main() {
 		os.Exit(code)
 	case "mapranges":
 		listMapRanges(p)
+	case "structscan":
+		printStructFindings("global state (soyhtml, soyjs, soymsg, data, template, ast, parsepasses, root):", p.globalStateScan([]string{"/soyhtml", "/soyjs", "/soymsg", "/data", "/template", "/ast", "/parsepasses", ""}))
+		printStructFindings("recover sites:", p.recoverSiteScan([]string{"/soyhtml", "/soyjs", "/parse", "/parsepasses", "/data", ""}))
 	case "keys":
 		for _, a := range fs.Args() {
 			debugKeys(p, a)
